@@ -466,7 +466,7 @@ Proof. intros HU. rewrite split_unlines by apply head_clean. rewrite split_unlin
 
 Lemma merlin_written_view ca rep U cu cn : Forall clean U -> nomark U -> drop_empty U = U ->
   view Merlin (mkSnap (Some (unlines (merlin_head_lines ca rep) ++ unlines U)) cu cn) =
-  mkV false t_53 false [t_target] true rep U.
+  mkV false t_53 false [t_target] true rep U false.
 Proof.
   intros HU Hm Hd. unfold view, managed_lines_of, user_part. cbn [l_conf].
   rewrite (merlin_written_lines _ _ _ HU). rewrite in_lines_app, head_has_marker. cbn [orb].
@@ -517,7 +517,7 @@ Qed.
 Lemma merlin_restore c e r1 e1 ls ok1 r2 e2 ok2 e3 ok3 :
   cr_clean (conf e) ->
   configure (new Merlin e) c e = (r1, e1, ls, ok1) -> setup r1 e1 = (r2, e2, ok2) -> restore r2 e2 = (e3, ok3) ->
-  ok3 = true /\ view Merlin (loaded e3) = mkV false t_53 false [] false false (owner_lines (conf e)).
+  ok3 = true /\ view Merlin (loaded e3) = mkV false t_53 false [] false false (owner_lines (conf e)) false.
 Proof.
   intros Hcr Hc Hs Hr. destruct (merlin_cycle _ _ _ _ _ _ _ _ _ Hc Hs) as (_ & _ & _ & Hfw & Hpc & ->).
   unfold restore in Hr. rewrite Hfw, Hpc in Hr. injection Hr as <- <-. split; [reflexivity|].
@@ -538,7 +538,7 @@ Lemma merlin_restore_restores c e r1 e1 ls ok1 r2 e2 ok2 e3 ok3 :
 Proof.
   intros Hcr Hp Hc Hs Hr. destruct (merlin_restore _ _ _ _ _ _ _ _ _ _ _ Hcr Hc Hs Hr) as (_ & Hv). rewrite Hv.
   split; [reflexivity|]. unfold c20_restored.
-  replace (view Merlin (current e)) with (mkV false t_53 false [] false false (owner_lines (conf e))); [apply beq_view_refl|].
+  replace (view Merlin (current e)) with (mkV false t_53 false [] false false (owner_lines (conf e)) false); [apply beq_view_refl|].
   unfold view, current, managed_lines_of, user_part, owner_lines. cbn [l_conf l_uci].
   destruct (conf e) as [b|]; [|reflexivity]. unfold nomark in Hp. rewrite Hp. reflexivity.
 Qed.
@@ -569,7 +569,8 @@ Lemma view_openwrt_lines cf u n :
       (match sget k_port u with Some (x :: r) => trim_space (join_sp (x :: r)) | _ => t_53 end)
       (match sget k_port u with Some (_ :: _) => true | _ => false end)
       (server_targets ls) (in_lines t_noresolv ls) (in_lines t_addmac ls)
-      [trim_space (joined (sget k_server u)); trim_space (joined (sget k_dhcpopt u))].
+      [trim_space (joined (sget k_server u)); trim_space (joined (sget k_dhcpopt u))]
+      (negb (forallb known_line ls)).
 Proof. reflexivity. Qed.
 
 Lemma dropin_split ca p0 rep : split_lines (unlines (dropin_lines ca p0 rep)) = dropin_lines ca p0 rep.
